@@ -417,9 +417,21 @@ def pathExpand (ed : Ed) (src : Bytes) (spaceAllowed : Bool) : R (Option Bytes) 
   | some none => some (none, ed.show (strOf "pathname \"%\" or \"#\" is not set"))
   | some (some p) => if p.length ≥ 1000 then none else some (some p, ed)
 
-/-- the shell oracle: output of `cmd_pipe(cmd, input, 1)` -/
+/-- the closed shell of the harnesses (`verif_shell` in harness/common.h): the commands it interprets; every other
+    command exits with status 127 and no output -/
+def builtinPipe (cmd input : Bytes) : Bytes :=
+  if cmd == strOf "cat" then input
+  else if cmd == strOf "tr a-z A-Z" then input.map (fun c => if 97 ≤ c && c ≤ 122 then c - 32 else c)
+  else if cmd == strOf "printf x" then [120]
+  else if cmd == strOf "sed 1q" then
+    (let l := input.takeWhile (· != 10); if l.length < input.length then l ++ [10] else l)
+  else []
+
+/-- the shell oracle: output of `cmd_pipe(cmd, input, 1)`; an explicit table entry wins over the closed shell -/
 def Ed.pipe (ed : Ed) (cmd input : Bytes) : Option (Option Bytes) :=
-  (ed.pipes.find? (fun p => p.1 == cmd && p.2.1 == input)).map (·.2.2)
+  match ed.pipes.find? (fun p => p.1 == cmd && p.2.1 == input) with
+  | some p => some p.2.2
+  | none => some (some (builtinPipe cmd input))
 
 /-- `lbuf_cp(xb, beg, end)` -/
 def Ed.cp (ed : Ed) (b e : Int) : Bytes := match ed.lb with
